@@ -323,3 +323,269 @@ Example canonical_nonvacuous :
 Proof.
   split; [exact w_flat_owner_free|]. destruct flat_run as [a [s [H1 [H2 [H3 _]]]]]. exists a, s. exact (conj H1 (conj H2 H3)).
 Qed.
+
+(** * 4. NESTED instance requirements (instance exports below instance exports; repository commit 0bf540d)
+
+    Scope of this section ([nested_contrib Col c], proofs/AggregatorNestedDen.v, AggregatorNestedHistory.v): the contribution is
+    [KInstance i] and [i] is the root of a TREE of interfaces of its collection: no `use`s, pairwise different export
+    names, every export is a leaf (function, value, value type with a resource-free tree) or again an instance whose
+    interface is ANONYMOUS and has exactly this one parent ([IDen]/[shaped]); the root has no identifier or the import
+    name as identifier; no owned resource aliases.  [once Col l]: no interface is reached from two contributions of the
+    history (automatic for contributors from pairwise different collections: [once_of_distinct_collections]).
+    The executable form of the hypothesis is [ncontrib_b] ([nested_contrib_decidable]).
+
+    Invariant [NestInv Col tag0 a s done] (the tree-shaped generalisation of [HInv]):
+      - the names bookkeeping [NInv] and the remap/memo invariant [MInv] as before;
+      - OWNERSHIP: every import is the root of such a tree in the aggregator's collection and the trees of different
+        imports share no interface (inside one tree no interface has two parents: [shaped]); hence a merge below one
+        import leaves every other import alone ([MFrame]);
+      - SEMANTICS: the tree of import [n] is the left-to-right [tmerge] (spec/AggregatorSpec.v: recursive first-seen union,
+        equal leaves) of the trees of the contributions whose canonical name is [n], in arrival order ([MergedOf]).
+    The link model -> specification is [ML_all] (proofs/AggregatorNestedMerge.v): a successful [merge_interface] of a
+    nested requirement into a nested interface computes [union_with (tmerge_f n)]; no fuel hypothesis is needed (all
+    statements are about successful aggregations; [deep_run] shows that fuel 60 suffices for a depth-3 history, and
+    results other than out-of-fuel do not depend on the fuel).
+    NOT covered: nested interfaces WITH an identifier (they are unified through the interface table: refuted below),
+    interfaces with two parents (refuted below), `use`d types, resources, components. *)
+From WacV Require Import AggregatorNestedSpec AggregatorNestedDen AggregatorNestedMerge AggregatorNestedHistory
+     AggregatorNestedTheorems AggregatorNestedWitness.
+
+(** [NestInv] holds initially and after every successful aggregation of a nested contribution that shares no interface
+    with the contributions aggregated before. *)
+Theorem nested_history_invariant : forall ord cf fuel (Col : types -> Prop) tag0,
+  (forall l x, In x (ord l) -> In x l) ->
+  (forall t1 t2, Col t1 -> Col t2 -> t_tag t1 = t_tag t2 -> t1 = t2) -> (forall t, Col t -> t_tag t <> tag0) ->
+  NestInv Col tag0 (agg0 tag0) st0 [] /\
+  forall a s done c a' s', NestInv Col tag0 a s done -> nested_contrib Col c -> (forall c0, In c0 done -> apart Col c c0) ->
+    aggregate ord cf fuel a s (fst c) (fst (snd c)) (snd (snd c)) = AOk (a', s') -> NestInv Col tag0 a' s' (c :: done).
+Proof.
+  intros ord cf fuel Col tag0 Ho Hs Ht. split; [exact (NestInv_nil Col tag0)|].
+  intros a s done c a' s' HI [tr [ids Hc]]. exact (NestInv_step ord Ho cf fuel Col Hs tag0 Ht a s done c tr ids a' s' HI Hc).
+Qed.
+Print Assumptions nested_history_invariant.
+
+(** [merge_upper_bound] for nested histories: merged <: required, in the declarative relation, for every contributor. *)
+Theorem merge_upper_bound_nested_partial : forall ord cf fuel (Col : types -> Prop) tag0,
+  (forall l x, In x (ord l) -> In x l) ->
+  (forall t1 t2, Col t1 -> Col t2 -> t_tag t1 = t_tag t2 -> t1 = t2) -> (forall t, Col t -> t_tag t <> tag0) ->
+  forall l a s, Forall (nested_contrib Col) l -> once Col l -> history_ok ord cf fuel tag0 l a s ->
+  forall c, In c l -> forall tr, UnfK (fst (snd c)) (snd (snd c)) tr ->
+    exists merged tm, assoc (Aggregator.canonical a (fst c)) (imports a) = Some merged /\
+                      UnfK (a_types a) merged tm /\ SubCM tm tr.
+Proof. intros ord cf fuel Col tag0 Ho Hs Ht. exact (nested_upper_bound ord Ho cf fuel Col Hs tag0 Ht). Qed.
+Print Assumptions merge_upper_bound_nested_partial.
+
+(** [instance_merge_is_union], recursively: one successful aggregation of a nested requirement (tree [tb]) into the import
+    that carries its name (exact, or the semver-compatible one; tree [ta]) leaves that import with the specification's
+    [tmerge ta tb]: the export names are the first-seen union, an export only one side has keeps its tree, an export both
+    have is their [tmerge] - and so on below every nested instance. *)
+Theorem instance_merge_is_union_nested_partial : forall ord cf fuel (Col : types -> Prop) tag0,
+  (forall t1 t2, Col t1 -> Col t2 -> t_tag t1 = t_tag t2 -> t1 = t2) -> (forall t, Col t -> t_tag t <> tag0) ->
+  forall a s done c a' s' y,
+  NestInv Col tag0 a s done -> nested_contrib Col c -> (forall c0, In c0 done -> apart Col c c0) ->
+  (assoc (fst c) (a_imports a) = Some (KInstance y) \/
+   (assoc (fst c) (a_imports a) = None /\ exists en, find_compat (fst c) (a_imports a) = Some (en, KInstance y))) ->
+  aggregate ord cf fuel a s (fst c) (fst (snd c)) (snd (snd c)) = AOk (a', s') ->
+  forall ta tb, UnfK (a_types a) (KInstance y) ta -> UnfK (fst (snd c)) (snd (snd c)) tb ->
+    exists ea eb em, ta = XInst ea /\ tb = XInst eb /\ UnfK (a_types a') (KInstance y) (XInst em) /\
+      tmerge ta tb = Some (XInst em) /\
+      map fst em = first_seen_union (map fst ea) (map fst eb) /\
+      forall k, match assoc k ea, assoc k eb with
+                | Some x, Some z => exists m, tmerge x z = Some m /\ assoc k em = Some m
+                | Some x, None => assoc k em = Some x
+                | None, Some z => assoc k em = Some z
+                | None, None => assoc k em = None
+                end.
+Proof. intros ord cf fuel Col tag0 Hs Ht. exact (nested_merge_is_union ord cf fuel Col Hs tag0 Ht). Qed.
+Print Assumptions instance_merge_is_union_nested_partial.
+
+(** [aggregate_idempotent] / [equal_requirements_merge_to_self]: a requirement that the import already satisfies
+    ([SubCM ta tb]; in particular the same requirement contributed again from another collection) leaves the import's
+    whole tree as it was. *)
+Theorem aggregate_idempotent_nested_partial : forall ord cf fuel (Col : types -> Prop) tag0,
+  (forall t1 t2, Col t1 -> Col t2 -> t_tag t1 = t_tag t2 -> t1 = t2) -> (forall t, Col t -> t_tag t <> tag0) ->
+  forall a s done c a' s' y,
+  NestInv Col tag0 a s done -> nested_contrib Col c -> (forall c0, In c0 done -> apart Col c c0) ->
+  (assoc (fst c) (a_imports a) = Some (KInstance y) \/
+   (assoc (fst c) (a_imports a) = None /\ exists en, find_compat (fst c) (a_imports a) = Some (en, KInstance y))) ->
+  aggregate ord cf fuel a s (fst c) (fst (snd c)) (snd (snd c)) = AOk (a', s') ->
+  forall ta tb, UnfK (a_types a) (KInstance y) ta -> UnfK (fst (snd c)) (snd (snd c)) tb -> SubCM ta tb ->
+    UnfK (a_types a') (KInstance y) ta.
+Proof. intros ord cf fuel Col tag0 Hs Ht. exact (nested_idempotent ord cf fuel Col Hs tag0 Ht). Qed.
+Print Assumptions aggregate_idempotent_nested_partial.
+
+(** [fails_iff_conflict], direction "a conflict makes the aggregation fail": if the specification has no merge of the
+    import's tree and the requirement ([tmerge] = None: somewhere below, a same-named export is a leaf on one side and an
+    instance on the other, or two different leaves) the aggregation does not succeed; and in a successful history any two
+    contributions of one track are mergeable.  (The converse direction is refuted below and in section 3.) *)
+Theorem fails_iff_conflict_nested_partial : forall ord cf fuel (Col : types -> Prop) tag0,
+  (forall l x, In x (ord l) -> In x l) ->
+  (forall t1 t2, Col t1 -> Col t2 -> t_tag t1 = t_tag t2 -> t1 = t2) -> (forall t, Col t -> t_tag t <> tag0) ->
+  (forall a s done c y,
+    NestInv Col tag0 a s done -> nested_contrib Col c -> (forall c0, In c0 done -> apart Col c c0) ->
+    (assoc (fst c) (a_imports a) = Some (KInstance y) \/
+     (assoc (fst c) (a_imports a) = None /\ exists en, find_compat (fst c) (a_imports a) = Some (en, KInstance y))) ->
+    forall ta tb, UnfK (a_types a) (KInstance y) ta -> UnfK (fst (snd c)) (snd (snd c)) tb -> tmerge ta tb = None ->
+      forall r, aggregate ord cf fuel a s (fst c) (fst (snd c)) (snd (snd c)) <> AOk r) /\
+  (forall l a s, Forall (nested_contrib Col) l -> once Col l -> history_ok ord cf fuel tag0 l a s ->
+    forall c1 c2, In c1 l -> In c2 l -> compat_spec_b (fst c1) (fst c2) = true ->
+    forall tr1 tr2, UnfK (fst (snd c1)) (snd (snd c1)) tr1 -> UnfK (fst (snd c2)) (snd (snd c2)) tr2 ->
+      exists tm, tmerge tr1 tr2 = Some tm).
+Proof.
+  intros ord cf fuel Col tag0 Ho Hs Ht. split.
+  - exact (nested_conflict_fails ord cf fuel Col Hs tag0 Ht).
+  - exact (nested_success_no_conflict ord Ho cf fuel Col Hs tag0 Ht).
+Qed.
+Print Assumptions fails_iff_conflict_nested_partial.
+
+(** [aggregate_order_indep] for nested multisets, under the hypothesis that BOTH orders succeed (as in the flat case:
+    "success is the same" needs the completeness/totality development): same canonical names, and the merged trees are
+    mutual subtypes (equal up to the order of exports at every level). *)
+Theorem aggregate_order_indep_nested_partial : forall ord cf fuel (Col : types -> Prop) tag0,
+  (forall l x, In x (ord l) -> In x l) ->
+  (forall t1 t2, Col t1 -> Col t2 -> t_tag t1 = t_tag t2 -> t1 = t2) -> (forall t, Col t -> t_tag t <> tag0) ->
+  forall l l' a s a' s', Forall (nested_contrib Col) l -> once Col l -> once Col l' -> Permutation l l' ->
+  history_ok ord cf fuel tag0 l a s -> history_ok ord cf fuel tag0 l' a' s' ->
+  forall n, In n (map fst l) ->
+    Aggregator.canonical a n = Aggregator.canonical a' n /\
+    exists m m' tm tm', assoc (Aggregator.canonical a n) (imports a) = Some m /\
+                        assoc (Aggregator.canonical a' n) (imports a') = Some m' /\
+                        UnfK (a_types a) m tm /\ UnfK (a_types a') m' tm' /\ SubCM tm tm' /\ SubCM tm' tm.
+Proof. intros ord cf fuel Col tag0 Ho Hs Ht. exact (nested_order_indep ord Ho cf fuel Col Hs tag0 Ht). Qed.
+Print Assumptions aggregate_order_indep_nested_partial.
+
+(** the specification's merge on nested-flat trees ([wt d]): a lower bound of both arguments, the greatest one, absorbs
+    what it already satisfies, and exists whenever the two have any common refinement *)
+Theorem tmerge_is_meet : forall d a b,
+  wt d a -> wt d b ->
+  (forall m, tmerge a b = Some m -> wt d m /\ SubCM m a /\ SubCM m b /\ forall z, SubCM z a -> SubCM z b -> SubCM z m) /\
+  (SubCM a b -> tmerge a b = Some a) /\
+  (forall z, SubCM z a -> SubCM z b -> exists m, tmerge a b = Some m).
+Proof.
+  intros d a b Wa Wb. split; [|split].
+  - intros m H. destruct (tmerge_upper d a b m Wa Wb H) as [Wm [Ma [Mb _]]]. split; auto. split; auto. split; auto.
+    intros z. exact (tmerge_glb d a b m z Wa Wb H).
+  - exact (tmerge_absorb d a b Wa Wb).
+  - intros z. exact (tmerge_total d a b z Wa Wb).
+Qed.
+Print Assumptions tmerge_is_meet.
+
+(** the hypotheses are decidable ([ncontrib_b G d c]: fuel [G] for the leaves, depth [d]) and contributors from pairwise
+    different collections are always [once] *)
+Theorem nested_contrib_decidable : forall (Col : types -> Prop) G d c,
+  Col (fst (snd c)) -> owner_free (fst (snd c)) -> ncontrib_b G d c = true -> nested_contrib Col c.
+Proof. exact ncontrib_b_sound. Qed.
+Print Assumptions nested_contrib_decidable.
+Theorem once_of_distinct_collections : forall (Col : types -> Prop) (l : list (str * (types * kind))),
+  NoDup (map (fun c : str * (types * kind) => t_tag (fst (snd c))) l) -> once Col l.
+Proof. exact once_tags. Qed.
+Print Assumptions once_of_distinct_collections.
+
+(** Full statements (no tree-shape hypothesis): FALSE of the faithful model.
+    (a) An interface with two parents INSIDE one contributor - foo: {n: I, m: I}, I = {f}, then foo: {n: {g}}: the copy of
+    I is shared, the merge below [n] enlarges [m] as well, the merged requirement is strictly more demanding than the
+    union ([tmerge ta tb] does not satisfy it) although every contributor is satisfied.  The first contribution is exactly
+    what [ncontrib_b] rejects.  Replayed on the real aggregator: same trees (proposed finding
+    nested-interface-with-two-parents).  Restored by [shaped] (every nested interface has one parent). *)
+Theorem instance_merge_is_union_nested_refuted :
+  exists l a s tm ta tb tu, run l = inl (a, s) /\ length l = 2%nat /\ merged_tree a [102;111;111] = Some tm /\
+    req_tree (nth 0 l dflt) = Some ta /\ req_tree (nth 1 l dflt) = Some tb /\ tmerge ta tb = Some tu /\
+    ~ SubCM tu tm /\ SubCM tm ta /\ SubCM tm tb /\
+    ncontrib_b 4 3 (nth 0 l dflt) = false /\ ncontrib_b 4 3 (nth 1 l dflt) = true.
+Proof.
+  destruct shared_child_not_union as [l [a [s [tm [ta [tb [tu [H1 [H2 [H3 [H4 [H5 [H6 [H7 [H8 [H9 [H10 H11]]]]]]]]]]]]]]]]].
+  exists l, a, s, tm, ta, tb, tu. refine (conj H1 (conj H2 (conj H3 (conj H4 (conj H5 (conj H6 (conj _ (conj _ (conj _ (conj H10 H11)))))))))).
+  - intro X. apply sub_b_iff in X. congruence.
+  - now apply sub_b_iff.
+  - now apply sub_b_iff.
+Qed.
+Print Assumptions instance_merge_is_union_nested_refuted.
+
+(** (b) ... and with a third contribution {m: {g: func(x: u8)}}, which conflicts with nothing anybody required (the
+    specification merges all three), the history fails in the order 1,2,3 and succeeds in the order 2,3,1. *)
+Theorem fails_iff_conflict_nested_refuted :
+  exists l l' p e a s ta tb tc tab tabc, Permutation l l' /\ run l = inr (p, AErr e) /\ run l' = inl (a, s) /\
+    length l = 3%nat /\
+    req_tree (nth 0 l dflt) = Some ta /\ req_tree (nth 1 l dflt) = Some tb /\ req_tree (nth 2 l dflt) = Some tc /\
+    tmerge ta tb = Some tab /\ tmerge tab tc = Some tabc.
+Proof. exact shared_child_fails_without_conflict. Qed.
+Print Assumptions fails_iff_conflict_nested_refuted.
+
+(** (c) Sharing through the interface table: a nested interface WITH an identifier is unified with the interface of that
+    identifier already registered - foo: {n: d{f}}, bar: {n: d{g}} on different tracks: afterwards foo requires [g] below
+    [n] (merged foo is not satisfied by foo's only contributor's own tree; the contributor is satisfied by merged).
+    Known finding interface-id-under-two-import-names, nested form.  Restored by anonymous nested interfaces ([IDen]). *)
+Theorem nested_interface_table_refuted :
+  exists l a s tm ta, run l = inl (a, s) /\ length l = 2%nat /\ compat_spec_b (fst (nth 0 l dflt)) (fst (nth 1 l dflt)) = false /\
+    merged_tree a (fst (nth 0 l dflt)) = Some tm /\ req_tree (nth 0 l dflt) = Some ta /\ ~ SubCM ta tm /\ SubCM tm ta.
+Proof.
+  destruct table_shared_child_not_union as [l [a [s [tm [ta [H1 [H2 [H3 [H4 [H5 [H6 H7]]]]]]]]]]].
+  exists l, a, s, tm, ta. refine (conj H1 (conj H2 (conj H3 (conj H4 (conj H5 (conj _ _)))))).
+  - intro X. apply sub_b_iff in X. congruence.
+  - now apply sub_b_iff.
+Qed.
+Print Assumptions nested_interface_table_refuted.
+
+(** Non-vacuity of the nested theorems: three versions of one track, interfaces named by their import names, two levels
+    of nesting, overlapping and disjoint nested exports; the merged tree equals the executable specification [spec_merge]. *)
+Example nested_nonvacuous :
+  Forall (nested_contrib deep_col) w_deep /\ once deep_col w_deep /\
+  (forall t1 t2, deep_col t1 -> deep_col t2 -> t_tag t1 = t_tag t2 -> t1 = t2) /\ (forall t, deep_col t -> t_tag t <> 0) /\
+  exists a s tm, run w_deep = inl (a, s) /\ map fst (imports a) = [n_023] /\ merged_tree a n_021 = Some tm /\
+                 spec_merge (map (fun c => (fst c, match req_tree c with Some t => t | None => XInst [] end)) w_deep) = Some [(n_023, tm)].
+Proof.
+  refine (conj w_deep_nested (conj w_deep_once (conj deep_col_same (conj deep_col_tag _)))).
+  eexists _, _, _. split; [vm_compute; reflexivity|]. split; [vm_compute; reflexivity|]. split; vm_compute; reflexivity.
+Qed.
+
+(** * 5. Fuel
+
+    The recursion of the Rust code over nested instance exports ([merge_interface] <-> [remap_interface]) is on explicit fuel
+    in the model.  (a) Fuel is only a bound: every outcome other than "out of fuel" - success with its final state, or the
+    position and class of the first failure - is the same for every larger fuel.  (b) The fuel the NESTED recursion needs is
+    bounded by the depth [d] of the contributor's tree: with fuel >= 2*d + L + 2 a merge (2*d + L: a copy) can only run out
+    of fuel because a LEAF (function, value, value type) of the contributor could not be copied with fuel >= L, or
+    because the SubtypeChecker (its fuel [cf] is a separate parameter) answered OutOfFuel - in whatever state the
+    aggregator is.  The leaf copies are bounded as well ([nested_fuel_suffices]); NOT proved: a bound for the checker's own
+    fuel [cf] (the flat development has none either: the aggregator's growing collection would need a
+    well-formedness/ranking invariant). *)
+From WacV Require Import AggregatorFuelMono AggregatorNestedFuel AggregatorNestedLeafFuel.
+
+Theorem aggregate_fuel_monotone : forall ord cf f f',
+  (f <= f')%nat ->
+  (forall a s name t k r, aggregate ord cf f a s name t k = r -> r <> AOof -> aggregate ord cf f' a s name t k = r) /\
+  (forall l a s pos res, aggregate_all ord cf f a s l pos = res -> (forall p, res <> inr (p, AOof)) ->
+                         aggregate_all ord cf f' a s l pos = res).
+Proof.
+  intros ord cf f f' Lf. split.
+  - intros a s name t k r. exact (aggregate_fuel_mono ord cf f f' a s name t k r Lf).
+  - exact (aggregate_all_fuel_mono ord cf f f' Lf).
+Qed.
+Print Assumptions aggregate_fuel_monotone.
+
+Theorem nested_fuel_bound : forall ord cf t L d,
+  (forall i oid e ids, IDen d t i oid e ids -> forall F y c, (2 * d + L + 2 <= F)%nat ->
+     merge_interface ord cf F y t i c = AOof -> LeafOof ord cf t L \/ ChkOof cf t) /\
+  (forall k tr ids, Den d t k tr ids -> forall F c, (2 * d + L <= F)%nat ->
+     remap_item_kind ord cf F t k c = AOof -> LeafOof ord cf t L).
+Proof.
+  intros ord cf t L d. split.
+  - intros i oid e ids. exact (nested_merge_fuel_bound ord cf t L d i oid e ids).
+  - intros k tr ids. exact (nested_copy_fuel_bound ord cf t L d k tr ids).
+Qed.
+Print Assumptions nested_fuel_bound.
+
+(** ... and the leaf clause is empty once [L >= 2*g + 2], [g] a fuel at which [unfold] computes the tree of every
+    resource-free leaf kind of the contributor's collection: a nested requirement of depth [d] is copied with fuel
+    2*d + 2*g + 2 whatever the state; it is merged with fuel 2*d + 2*g + 4 unless the checker runs out of ITS fuel. *)
+Theorem nested_fuel_suffices : forall ord cf t g d,
+  (forall k0 tr0, leaf_den t k0 tr0 -> unfold g t k0 = Some tr0) ->
+  (forall k tr ids, Den d t k tr ids -> forall F c, (2 * d + 2 * g + 2 <= F)%nat -> remap_item_kind ord cf F t k c <> AOof) /\
+  (forall i oid e ids, IDen d t i oid e ids -> forall F y c, (2 * d + 2 * g + 4 <= F)%nat ->
+     merge_interface ord cf F y t i c = AOof -> ChkOof cf t).
+Proof.
+  intros ord cf t g d Hg. split.
+  - intros k tr ids. exact (nested_copy_total ord cf t g d k tr ids Hg).
+  - intros i oid e ids. exact (nested_merge_total ord cf t g d i oid e ids Hg).
+Qed.
+Print Assumptions nested_fuel_suffices.
